@@ -29,6 +29,20 @@ type pubCase struct {
 	Body        string   `json:"body"`
 	RawQuery    string   `json:"raw_query"`
 	Topics      []string `json:"topics"`
+	// large bodies: the marker @PAD@ in Body stands for Pad bytes of padString (kept out of the replay file);
+	// Big* are what the generator put after the padded data field
+	Pad        int    `json:"pad,omitempty"`
+	BigPrivate bool   `json:"big_private,omitempty"`
+	BigID      string `json:"big_id,omitempty"`
+	BigType    string `json:"big_type,omitempty"`
+}
+
+func (cs pubCase) body() string {
+	if cs.Pad == 0 {
+		return cs.Body
+	}
+
+	return strings.Replace(cs.Body, "@PAD@", padString(cs.Pad), 1)
 }
 
 var uuidRe = regexp.MustCompile(`^urn:uuid:[0-9a-f]{8}-[0-9a-f]{4}-4[0-9a-f]{3}-[89ab][0-9a-f]{3}-[0-9a-f]{12}$`)
@@ -133,11 +147,13 @@ func runPub(c *h.Ctx, r *h.Report) {
 		for i := 0; i < n; i++ {
 			cases = append(cases, genPubCase(c.Rand.Fork(), o))
 		}
+		cases = append(cases, largePubCases(c.Rand.Fork())...)
 	}
 
 	for _, cs := range cases {
 		x := getFx(cs.Cfg)
 		f := x.f
+		body := cs.body()
 		tok := jws.Mint(f.pubKey, cs.ClaimsJSON)
 		a := authParts{}
 		switch cs.Carrier {
@@ -154,8 +170,13 @@ func runPub(c *h.Ctx, r *h.Report) {
 		var form url.Values
 		if strings.HasPrefix(cs.ContentType, "application/x-www-form-urlencoded") {
 			var err error
-			form, err = url.ParseQuery(cs.Body)
-			formOk = err == nil
+			// (the form-size limit of net/http's ParseForm is part of the reading)
+			if len(body) > 10<<20 {
+				formOk = false
+			} else {
+				form, err = url.ParseQuery(body)
+				formOk = err == nil
+			}
 		}
 		var claimSels []string
 		fa := jws.Analyse(tok, map[string]*jws.Key{"p": f.pubKey}, now)
@@ -172,15 +193,15 @@ func runPub(c *h.Ctx, r *h.Report) {
 			h.B(len(form["private"]) != 0), h.Hex(form.Get("data")), h.Hex(form.Get("id")), h.Hex(form.Get("type")))...))
 		// the fields the hub reads from the body, by the model's own form decoding (Model/Form) — not only by net/url
 		if strings.HasPrefix(cs.ContentType, "application/x-www-form-urlencoded") {
-			if mf, gf := c.Driver.Ask1(h.Line("form.fields", hex.EncodeToString([]byte(cs.Body)))), goFields(cs.Body); mf != gf {
-				r.Disagree(h.Disagreement{Class: "C02.form-fields", Case: cs, Model: mf, Impl: gf})
+			if mf, gf := c.Driver.Ask1(h.Line("form.fields", hex.EncodeToString([]byte(body)))), goFields(body); mf != gf {
+				r.Disagree(h.Disagreement{Class: "C02.form-fields", Case: cs, Model: short(mf), Impl: short(gf)})
 			}
 		}
 		ans := c.Driver.Ask(lines)
 		model := ans[len(ans)-1]
 
 		before := lastID(f)
-		w := f.doPublish(a, cs.ContentType, cs.Body, cs.RawQuery)
+		w := f.doPublish(a, cs.ContentType, body, cs.RawQuery)
 		got := drain(x.w)
 		after := lastID(f)
 		r.Evaluations++
@@ -211,6 +232,18 @@ func runPub(c *h.Ctx, r *h.Report) {
 					id = ""
 				}
 				x.acc = append(x.acc, u.ID)
+				if cs.Pad > 0 {
+					r.Count("large-body:accepted")
+					// what the publisher put after a large data field is part of the update (implementation alone)
+					if cs.BigPrivate && !u.Private {
+						r.Violate(h.Violation{Key: "C01:update-posted-as-private-dispatched-as-public",
+							What: fmt.Sprintf("a publish whose body (%d bytes) carries private=on after the data field was dispatched with Private=false: every subscriber of the topic receives it", len(body)), Replay: map[string]any{"family": "pub", "case": cs}})
+					}
+					if u.ID != cs.BigID || u.Type != cs.BigType || u.Data != padString(cs.Pad) {
+						r.Violate(h.Violation{Key: "C12:dispatched-update-differs-from-what-was-posted",
+							What: fmt.Sprintf("posted id %q type %q data of %d bytes (body %d bytes); dispatched id %q type %q data of %d bytes", cs.BigID, cs.BigType, cs.Pad, len(body), u.ID, u.Type, len(u.Data)), Replay: map[string]any{"family": "pub", "case": cs}})
+					}
+				}
 				// what is dispatched is what was posted in the body and checked against the claim — not more
 				posted := map[string]bool{}
 				for _, t := range topics {
@@ -234,7 +267,7 @@ func runPub(c *h.Ctx, r *h.Report) {
 			}
 		}
 		if impl != model {
-			r.Disagree(h.Disagreement{Class: "C02.publish", Case: cs, Model: model, Impl: impl})
+			r.Disagree(h.Disagreement{Class: "C02.publish", Case: cs, Model: short(model), Impl: short(impl)})
 		}
 		// the rule, evaluated by the harness alone
 		covered, forbidden := 0, 0
@@ -432,4 +465,21 @@ func genPubCase(rr *h.Rand, o *gen.Oracle) pubCase {
 	}
 
 	return cs
+}
+
+// largePubCases: bodies of 1 MiB and more (legal: net/http accepts forms up to 10 MiB), the fields a client
+// usually sends after `data` (private, id, type) placed after a large data field; and one body over the limit.
+func largePubCases(rr *h.Rand) []pubCase {
+	var out []pubCase
+	for _, sz := range []int{1<<20 + 17, 3 << 20, 10<<20 - 64, 10<<20 + 1} {
+		cs := pubCase{Cfg: hubCfg{PubAlg: "HS256", SubAlg: "HS256", Bolt: rr.Bool(), Origins: []string{"https://allowed.example"}},
+			Carrier: "header", ClaimsJSON: `{"mercure":{"publish":["*"]}}`, ContentType: "application/x-www-form-urlencoded",
+			Topics: []string{"https://example.com/big"}, BigPrivate: true, BigID: "big-" + h.Itoa(sz), BigType: "large"}
+		pre, post := "topic="+url.QueryEscape(cs.Topics[0])+"&data=", "&private=on&id="+cs.BigID+"&type="+cs.BigType
+		cs.Pad = sz - len(pre) - len(post)
+		cs.Body = pre + "@PAD@" + post
+		out = append(out, cs)
+	}
+
+	return out
 }
